@@ -91,6 +91,17 @@ def run_shard(spec, res):
                         steps.insert(rng.randrange(0, 2), {"op": "branch", "s": 0})
                 else:
                     _, steps = H.history(rng, al=al, p_branch=0.04 if i % 3 == 0 else 0.0)
+                if i % 8 == 5 and len(steps) >= 3:
+                    # somewhere after the first steps the solver is handed a constraint its backend cannot translate;
+                    # an explicit simplify (which rebuilds the backend solver) somewhere before or after it
+                    pos = rng.randrange(2, len(steps) + 1)
+                    ins = [{"op": "add_untranslatable", "s": 0, "how": rng.choice(["union", "strisdigit"])}]
+                    if rng.random() < 0.6:
+                        ins.insert(rng.randrange(2), {"op": "simplify", "s": 0})
+                    steps[pos:pos] = ins
+                    x_ = al.v(0)
+                    steps += [{"op": "eval", "s": 0, "e": x_, "n": 3, "extra": []}, {"op": "eval", "s": 0, "e": x_, "n": 70, "extra": []}, {"op": "max", "s": 0, "e": x_, "signed": False, "extra": []}, {"op": "satisfiable", "s": 0, "extra": []}]
+                    res.count("histories_with_untranslatable_constraint")
                 run_history(res, al.vars, steps, make, cfg, keep)
                 del keep[:]
         elif kind == "exh":
